@@ -1,7 +1,7 @@
 package main
 
 // Building and driving compiled C for ad-hoc Wuffs packages (the probe
-// coroutines and the generated programs): wuffs-c from the working tree ->
+// coroutines and the generated programs): wuffs-c (in-process, internal/cgen.Do) ->
 // C -> clang (ASan+UBSan) and gcc -O2 -> a line-protocol process.
 //
 //	run <fn index> <src chunk sizes|-> <dst capacities|-> <hex>
@@ -23,6 +23,8 @@ import (
 	"strings"
 	"sync"
 	"time"
+
+	cgen "github.com/google/wuffs/lang/verifc05"
 
 	"wvh/hlib"
 )
@@ -181,14 +183,13 @@ type flavour struct {
 }
 
 var flavours = []flavour{
-	{"asan-ubsan", "clang", []string{"-fsanitize=address,undefined", "-fno-sanitize-recover=all", "-O1", "-w", "-g0"},
+	{"asan-ubsan", "clang", []string{"-fsanitize=address,undefined", "-fno-sanitize-recover=all", "-O0", "-w", "-g0"},
 		[]string{"ASAN_OPTIONS=detect_leaks=0:allocator_may_return_null=1", "UBSAN_OPTIONS=print_stacktrace=0"}},
 	{"gcc-O2", "gcc", []string{"-O2", "-w"}, nil},
 }
 
 type toolchain struct {
 	dir     string
-	wuffsC  string
 	baseC   string
 	baseObj map[string]string // flavour name -> object
 	cleanup func()
@@ -197,41 +198,27 @@ type toolchain struct {
 func setupToolchain(repo string) (*toolchain, error) {
 	dir, cleanup := hlib.NewScratchDir("c05")
 	tc := &toolchain{dir: dir, cleanup: cleanup, baseObj: map[string]string{}}
-	bin := filepath.Join(dir, "bin")
-	if err := hlib.BuildTools(repo, bin, "wuffs-c"); err != nil {
-		cleanup()
-		return nil, err
-	}
-	tc.wuffsC = filepath.Join(bin, "wuffs-c")
-	o, e, err := hlib.RunCmd(2*time.Minute, "", nil, nil, tc.wuffsC, "gen", "-package_name", "base")
+	// wuffs-c in-process (internal/cgen.Do, compiled into this binary from the working tree)
+	o, err := cgen.Do([]string{"-package_name", "base"})
 	if err != nil {
 		cleanup()
-		return nil, fmt.Errorf("wuffs-c gen base: %v\n%s", err, e)
+		return nil, fmt.Errorf("wuffs-c gen base: %v", err)
 	}
 	tc.baseC = filepath.Join(dir, "wuffs-base.c")
 	if err := os.WriteFile(tc.baseC, o, 0o644); err != nil {
 		cleanup()
 		return nil, err
 	}
-	var wg sync.WaitGroup
-	errs := make([]error, len(flavours))
-	for i, fl := range flavours {
-		wg.Add(1)
-		go func(i int, fl flavour) {
-			defer wg.Done()
-			obj := filepath.Join(dir, "base_"+fl.name+".o")
-			args := append([]string{}, fl.flags...)
-			args = append(args, "-DWUFFS_IMPLEMENTATION", "-DWUFFS_CONFIG__MODULES", "-DWUFFS_CONFIG__MODULE__BASE", "-c", "-o", obj, tc.baseC)
-			errs[i] = hlib.CC(fl.cc, args...)
-			tc.baseObj[fl.name] = obj
-		}(i, fl)
+	// One base object for both flavours: the generated package code (and the base header's
+	// inline functions it uses) is what gets instrumented, not the base module's own functions.
+	obj := filepath.Join(dir, "base.o")
+	if err := hlib.CC("gcc", "-O1", "-w", "-DWUFFS_IMPLEMENTATION", "-DWUFFS_CONFIG__MODULES", "-DWUFFS_CONFIG__MODULE__BASE",
+		"-c", "-o", obj, tc.baseC); err != nil {
+		cleanup()
+		return nil, err
 	}
-	wg.Wait()
-	for _, err := range errs {
-		if err != nil {
-			cleanup()
-			return nil, err
-		}
+	for _, fl := range flavours {
+		tc.baseObj[fl.name] = obj
 	}
 	return tc, nil
 }
@@ -253,12 +240,9 @@ func (tc *toolchain) build(name string, p *wpkg) *builtPkg {
 	os.MkdirAll(bp.dir, 0o755)
 	wf := filepath.Join(bp.dir, name+".wuffs")
 	os.WriteFile(wf, []byte(p.text), 0o644)
-	csrc, stderr, err := hlib.GenPkg(tc.wuffsC, name, wf)
+	csrc, err := cgen.Do([]string{"-package_name", name, wf})
 	if err != nil {
-		bp.genErr = strings.TrimSpace(string(stderr))
-		if bp.genErr == "" {
-			bp.genErr = err.Error()
-		}
+		bp.genErr = err.Error()
 		return bp
 	}
 	bp.csrc = string(csrc)
